@@ -1,5 +1,5 @@
 // Contract of `impl Not for Predicate` (one text: proved in unit `predicate`, assumed by the consumers).
-// The precondition is the honest one: `[x >= i32::MIN]` and `[x <= i32::MAX]` have no representable negation.
+// `[x >= i32::MIN]` and `[x <= i32::MAX]` have no representable negation (pred_negatable); see below for what `!p` is then.
 pub open spec fn pred_negatable(p: Predicate) -> bool {
     match p {
         Predicate::LowerBound { domain_id, lower_bound } => lower_bound > i32::MIN,
@@ -15,11 +15,20 @@ pub open spec fn pred_negation(p: Predicate) -> Predicate {
         Predicate::Equal { domain_id, equality_constant } => Predicate::NotEqual { domain_id, not_equal_constant: equality_constant },
     }
 }
+// the canonical trivially false predicate: `[dummy != 1]` over the variable 0, which every model fixes to 1 (A-DUMMY)
+pub open spec fn pred_trivially_false() -> Predicate { Predicate::NotEqual { domain_id: DomainId { id: 0 }, not_equal_constant: 1 } }
+// since fix 968a679d (finding F35) the negation is total: the two trivially true bounds are negated to the trivially false predicate
 impl vstd::std_specs::ops::NotSpecImpl for Predicate {
     open spec fn obeys_not_spec() -> bool { true }
-    open spec fn not_req(self) -> bool { pred_negatable(self) }
-    open spec fn not_spec(self) -> Predicate { pred_negation(self) }
+    open spec fn not_req(self) -> bool { true }
+    open spec fn not_spec(self) -> Predicate { if pred_negatable(self) { pred_negation(self) } else { pred_trivially_false() } }
 }
+// semantic content for the two unrepresentable cases: the predicate holds for every i32-valued assignment and its
+// negation holds for no assignment that gives the dummy variable its value 1
+pub proof fn lemma_negation_of_trivial_bound(p: Predicate, a: Asg)
+    requires !pred_negatable(p), i32::MIN <= a(pred_domain(p)) <= i32::MAX, a(0) == 1
+    ensures pred_holds(p, a), !pred_holds(pred_trivially_false(), a)
+{ }
 // semantic content of the negation (spec-level lemma, proved here once)
 pub proof fn lemma_negation_is_complement(p: Predicate)
     requires pred_negatable(p)
